@@ -3719,3 +3719,80 @@ async fn api_raw_replay() {
     }
     out.flush().unwrap();
 }
+
+// ------------------------------------------------------------------------------------------------
+// C13, "all of a cache's VRPs are removed when its session ends" for the ends an OPERATOR orders: DisableRpki, DeleteRpki and a
+// hard ResetRpki on the real GrpcService, with the real RpkiClient::try_connect task talking to a scripted cache over a
+// loopback socket.  The order in which the cancelled task's branches are polled is random, so every kind of end is repeated.
+//
+// Input (VERIF_IN ends ".rtrapi.in"):  <op> <iterations>        op: disable | delete | reset
+// Output: {"op":..,"i":n,"installed":bool,"gone":bool,"note":".."}
+// ------------------------------------------------------------------------------------------------
+#[tokio::test]
+async fn rtr_api_replay() {
+    use api::go_bgp_service_server::GoBgpService;
+    let Ok(inp) = std::env::var("VERIF_IN") else {
+        return;
+    };
+    if !inp.ends_with(".rtrapi.in") {
+        return;
+    }
+    let outp = std::env::var("VERIF_OUT").expect("VERIF_OUT");
+    let text = std::fs::read_to_string(&inp).expect("read VERIF_IN");
+    let mut out = std::io::BufWriter::new(std::fs::File::create(&outp).expect("create VERIF_OUT"));
+    let cache_ip = IpAddr::V4(Ipv4Addr::new(127, 0, 0, 1));
+    let pdus = |msgs: &[packet::rpki::Message]| {
+        let mut codec = packet::rpki::RtrCodec::new();
+        let mut b = bytes::BytesMut::new();
+        for m in msgs {
+            tokio_util::codec::Encoder::encode(&mut codec, m, &mut b).unwrap();
+        }
+        b.to_vec()
+    };
+    for line in text.lines() {
+        let t: Vec<&str> = line.split_whitespace().collect();
+        if t.len() < 2 {
+            continue;
+        }
+        let iters: usize = t[1].parse().unwrap();
+        for i in 0..iters {
+            let mut note = String::new();
+            let w = AsWorld::new().await;
+            let listener = tokio::net::TcpListener::bind("127.0.0.1:0").await.unwrap();
+            let port = listener.local_addr().unwrap().port() as u32;
+            w.svc.add_rpki(tonic::Request::new(api::AddRpkiRequest { address: "127.0.0.1".into(), port, lifetime: 0 })).await.expect("add_rpki");
+            let Ok(Ok((mut sock, _))) = tokio::time::timeout(Duration::from_millis(WAIT_MS), listener.accept()).await else {
+                writeln!(out, "{{\"op\":\"{}\",\"i\":{},\"installed\":false,\"gone\":false,\"note\":\"the client did not connect\"}}", t[0], i).unwrap();
+                continue;
+            };
+            let resp = pdus(&[
+                packet::rpki::Message::CacheResponse { session_id: 7 },
+                packet::rpki::Message::IpPrefix(packet::rpki::Prefix { net: packet::IpNet::new("10.0.0.0".parse().unwrap(), 8), flags: 1, max_length: 24, as_number: 64501 }),
+                packet::rpki::Message::EndOfData { session_id: 7, serial_number: 1, refresh_interval: 3600, retry_interval: 600, expire_interval: 7200 },
+            ]);
+            let _ = sock.write_all(&resp).await;
+            let held = |tables: &TableHandle| tables.collect_roa(Family::IPV4).iter().any(|(_, r)| *r.source == cache_ip);
+            let tb = w.tables.clone();
+            let installed = wait_until(|| held(&tb), WAIT_MS).await;
+            let r = match t[0] {
+                "disable" => w.svc.disable_rpki(tonic::Request::new(api::DisableRpkiRequest { address: "127.0.0.1".into(), port })).await.map(|_| ()),
+                "delete" => w.svc.delete_rpki(tonic::Request::new(api::DeleteRpkiRequest { address: "127.0.0.1".into(), port })).await.map(|_| ()),
+                "reset" => w.svc.reset_rpki(tonic::Request::new(api::ResetRpkiRequest { address: "127.0.0.1".into(), port, soft: false })).await.map(|_| ()),
+                x => panic!("harness: op {x}"),
+            };
+            if r.is_err() {
+                note.push_str("the RPC failed;");
+            }
+            // a reset makes the client connect again: the new session gets no data
+            let second = if t[0] == "reset" { tokio::time::timeout(Duration::from_millis(300), listener.accept()).await.ok().and_then(|r| r.ok()) } else { None };
+            let tb = w.tables.clone();
+            let gone = wait_until(|| !held(&tb), 400).await;
+            writeln!(out, "{{\"op\":\"{}\",\"i\":{},\"installed\":{},\"gone\":{},\"note\":\"{}\"}}", t[0], i, installed, gone, note).unwrap();
+            // leave nothing running
+            let _ = w.svc.delete_rpki(tonic::Request::new(api::DeleteRpkiRequest { address: "127.0.0.1".into(), port })).await;
+            drop(second);
+            drop(sock);
+        }
+    }
+    out.flush().unwrap();
+}
